@@ -29,6 +29,14 @@ Section Refl.
     apply andb_prop in H. destruct H as [H1 H2]. destruct (eqb_spec x y); [|discriminate]. subst. f_equal. auto. Qed.
 End Refl.
 
+Lemma find_none_intro {A} (f : A -> bool) l : (forall x, In x l -> f x = false) -> find f l = None.
+Proof. induction l as [|a l IH]; simpl; intros H; [reflexivity|]. rewrite (H a) by now left. apply IH. intros x Hx. apply H. now right. Qed.
+
+Lemma NoDup_app_snoc {A} (l : list A) u : NoDup l -> ~ In u l -> NoDup (l ++ [u]).
+Proof. induction l as [|x l IHl]; simpl; intros Hn Hu. { repeat constructor; auto. }
+  inversion Hn; subst. constructor.
+  - intros Hc; apply in_app_or in Hc; destruct Hc as [Hc|[Hc|[]]]; [auto|subst; apply Hu; now left].
+  - apply IHl; auto. Qed.
 Lemma string_eqb_spec a b : reflect (a = b) (String.eqb a b).
 Proof. apply String.eqb_spec. Qed.
 
@@ -81,7 +89,8 @@ Proof. unfold build_checked. intros H. apply bind_ok in H. destruct H as [m' [H1
 
 Lemma to_model_struct b m : to_model b = inl m -> struct_check (mmain m) = true /\ mmain m = b_graph b /\ mimports m = max_opset_policy (b_req b).
 Proof. unfold to_model. intros H. apply bind_ok in H. destruct H as [funs [H1 H2]].
-  destruct (struct_check (b_graph b)) eqn:E; [|discriminate]. inversion H2; subst; simpl. auto. Qed.
+  destruct (struct_check (b_graph b)) eqn:E; [|discriminate]. simpl in H2.
+  destruct (forallb _ funs); [|discriminate]. inversion H2; subst; simpl. auto. Qed.
 
 (* the public build only ever returns a model that passed the final structural check — an exception otherwise *)
 Theorem build_public_checked p r m : build_public p r = inl m -> struct_check (mmain m) = true.
@@ -132,7 +141,8 @@ Let p' := with_main p (Some (main_args inputs)) outputs.
 
 Lemma validators_split :
   global_unique (mmain m) = true /\ node_names_unique (mmain m) = true /\ imports_unique m = true /\
-  emitted_once p' (mmain m) = true /\ placed p' (mmain m) = true /\ check_plan p' (mmain m) = true /\
+  emitted_once p' (mmain m) = true /\ placed p' (mmain m) = true /\ check_plan p' 0 (mmain m) = true /\
+  functions_exact p' m = true /\ function_imports_cover p' m = true /\ function_plans p' m = true /\
   io_exact p' inputs outputs (r_drop r) (depends_on p' 0) (mmain m) = true.
 Proof. pose proof Hv as H. unfold validators in H. rewrite Hin, Hout in H. fold p' in H.
   repeat (apply andb_prop in H; destruct H as [H ?]). repeat split; assumption. Qed.
@@ -173,9 +183,37 @@ Theorem io_names_exact :
     map snd gi = map (fun kv => match vty p' (snd kv) with Some t => tshow t | None => "?"%string end)
                      (if r_drop r then filter (fun kv => mem var_eqb (snd kv) (depends_on p' 0)) inputs else inputs)
   end.
-Proof. destruct validators_split as (_ & _ & _ & _ & _ & _ & H). unfold io_exact in H. destruct (mmain m) as [gi b go_].
+Proof. destruct validators_split as (_ & _ & _ & _ & _ & _ & _ & _ & _ & H). unfold io_exact in H. destruct (mmain m) as [gi b go_].
   repeat (apply andb_prop in H; destruct H as [H ?]).
   repeat split; now apply (list_eqb_eq String.eqb string_eqb_spec). Qed.
-Theorem plan_checked : check_plan p' (mmain m) = true.
+Theorem plan_checked : check_plan p' 0 (mmain m) = true.
 Proof. now destruct validators_split as (_ & _ & _ & _ & _ & H & _). Qed.
+
+Lemma key_eqb_spec a b : reflect (a = b) (key_eqb a b).
+Proof. destruct a as [a1 a2], b as [b1 b2]. unfold key_eqb. simpl.
+  destruct (String.eqb_spec a1 b1), (String.eqb_spec a2 b2); simpl; constructor; congruence. Qed.
+
+(* exactly one definition per used (domain, name) *)
+Theorem functions_one_per_key :
+  NoDup (fkeys m) /\ (forall k, In k (used_fkeys p' m) <-> In k (fkeys m)).
+Proof. destruct validators_split as (_ & _ & _ & _ & _ & _ & H & _). unfold functions_exact in H.
+  apply andb_prop in H. destruct H as [H H3]. apply andb_prop in H. destruct H as [H1 H2]. split.
+  - now apply (nodupb_NoDup key_eqb key_eqb_spec).
+  - intros k. rewrite forallb_forall in H2, H3. split; intros Hk.
+    + now apply (mem_In key_eqb key_eqb_spec), H2.
+    + now apply (mem_In key_eqb key_eqb_spec), H3. Qed.
+
+Theorem function_imports_cover_body f u dv :
+  In f (mfunctions m) -> In u (flat_map srcs_node (f_body f)) -> In dv (node_req p' u) ->
+  exists iv, In iv (f_imports f) /\ fst iv = fold_domain (fst dv) /\ snd dv <= snd iv.
+Proof. intros Hf Hu Hd. destruct validators_split as (_ & _ & _ & _ & _ & _ & _ & H & _). unfold function_imports_cover in H.
+  rewrite forallb_forall in H. specialize (H f Hf). rewrite forallb_forall in H. specialize (H u Hu).
+  rewrite forallb_forall in H. specialize (H dv Hd). unfold covered in H. apply existsb_exists in H.
+  destruct H as [iv [Hiv Hc]]. apply andb_prop in Hc. destruct Hc as [H1 H2]. exists iv. split; [assumption|]. split.
+  - now apply String.eqb_eq in H1.
+  - now apply Nat.leb_le in H2. Qed.
+
+Theorem function_plan_checked f : In f (mfunctions m) -> check_plan p' (f_bodyid f) (MGraph [] (f_body f) []) = true.
+Proof. intros Hf. destruct validators_split as (_ & _ & _ & _ & _ & _ & _ & _ & H & _). unfold function_plans in H.
+  rewrite forallb_forall in H. now apply H. Qed.
 End Valid.
